@@ -299,3 +299,47 @@ Definition open_mgr (thr : N) (fs : fsys) : option mgr :=
           end
       end
   end.
+
+(** * I/O errors (faults, not crashes) during LogEdits
+
+    [FAppendWrite]: the Write of the batch fails: nothing is written, nothing applied, the call
+    returns the error.  The other faults hit rewriteLocked, which runs after the batch has been
+    appended and applied: the call returns the error, the manager keeps appending to the old
+    manifest and CURRENT keeps naming it; what is left behind is an unused file id and possibly
+    an orphan manifest file / CURRENT.tmp. *)
+Inductive fault :=
+| FNone
+| FAppendWrite      (* file_write on the live manifest *)
+| FCreate           (* open_file (create) of the new manifest *)
+| FSnapWrite        (* file_write of the snapshot: the new file is closed and removed *)
+| FSnapSync         (* file_sync / file_close of the new manifest: the complete file stays *)
+| FTmpWrite         (* write_file of CURRENT.tmp *)
+| FRename.          (* rename CURRENT.tmp -> CURRENT *)
+
+Definition faulted (m1 : mgr) (f : fault) : mgr :=
+  let id := new_id m1 in
+  let snap := enc_all (snapshot_edits (m_ver m1)) in
+  let fs := match f with
+            | FSnapSync | FTmpWrite => man_set (m_fs m1) id snap
+            | FRename => set_tmp (man_set (m_fs m1) id snap) (Some [])
+            | _ => m_fs m1
+            end in
+  {| m_fs := fs; m_cur := m_cur m1; m_next := id + 1; m_ver := m_ver m1; m_thr := m_thr m1 |}.
+
+(** the manager after the call, and whether the call returned an error *)
+Definition log_edits_f (m : mgr) (batch : list edit) (f : fault) : mgr * bool :=
+  match f with
+  | FNone => (log_edits m batch, false)
+  | FAppendWrite => (m, true)
+  | _ => let m1 := appended m batch in
+         if needs_rewrite m1 then (faulted m1 f, true) else (m1, false)
+  end.
+
+Fixpoint log_all_f (m : mgr) (steps : list (list edit * fault)) : mgr * list bool :=
+  match steps with
+  | [] => (m, [])
+  | (b, f) :: steps' =>
+      let '(m1, e) := log_edits_f m b f in
+      let '(m2, es) := log_all_f m1 steps' in
+      (m2, e :: es)
+  end.
